@@ -30,3 +30,14 @@ volatile int * mythv_desc_status_ptr(void * p) {
   struct myth_thread * th = p;
   return (volatile int *)&th->status;
 }
+
+/* which worker's run queue does this address belong to (index words or slot array)?  -1: none */
+int mythv_queue_owner(const volatile void * addr, int nworkers) {
+  const char * a = (const char *)addr;
+  for (int r = 0; r < nworkers; r++) {
+    myth_thread_queue_t q = &g_envs[r].runnable_q;
+    if (a >= (const char *)q && a < (const char *)(q + 1)) return r;
+    if (q->ptr && a >= (const char *)q->ptr && a < (const char *)(q->ptr + q->size)) return r;
+  }
+  return -1;
+}
